@@ -29,3 +29,4 @@ func Hex(b []byte) string               { return vcore.Hex(b) }
 func PRF(tag uint64, off, n int) []byte { return vcore.PRF(tag, off, n) }
 func FirstDiff(a, b []byte) int         { return vcore.FirstDiff(a, b) }
 func QuietLogs()                        { vcore.QuietLogs() }
+func FailLater(msg string)              { vcore.FailLater(msg) }
